@@ -210,6 +210,9 @@ WITNESS_TESTS = {
 }
 
 
+KNOWN_BOUNDED = {}   # pid -> [(open finding, WITNESS line)] seen in this run
+
+
 def witness_search(pid, budget_s=600, tests=None):
     """after a failed proof (or an undecided run): run the recorded witness inputs and the small enumerative searches of this
     property against the REAL crates of /repo's working tree.  Returns a dict describing a failing input, or None.
@@ -239,6 +242,17 @@ def witness_search(pid, budget_s=600, tests=None):
             failed = re.findall(r'^test (\S+) \.\.\. FAILED', out, re.M)
             m = re.search(r'WITNESS ([^\n]*)', out)
             detail = m.group(1) if m else '\n'.join(l for l in out.split('\n') if 'panicked at' in l or 'assertion' in l or 'left:' in l or 'right:' in l)[:1500]
+            lines = re.findall(r'WITNESS ([^\n]*)', out)
+            # failing inputs recorded as open findings of this property (committed known_findings.json, never written at run time) are
+            # reported as KNOWN-FINDING by the caller; anything else is a violation
+            kf = [f for f in load_findings().get('open', []) if f.get('property') == pid and f.get('bounded_test') == t]
+            known = [(f, l) for l in lines for f in kf if f.get('match') and f['match'] in l]
+            rest = [l for l in lines if not any(l is kl for (_, kl) in known)]
+            if lines and not rest and len(failed) == 1:   # one failing test function, and every input it reports is a recorded finding
+                KNOWN_BOUNDED.setdefault(pid, []).extend(known)
+                continue
+            if rest:
+                detail = rest[0]
             return {'harness_test': t, 'failed_tests': failed, 'failing_input': detail[:2000],
                     'rerun': 'CARGO_TARGET_DIR=%s cargo test --offline --manifest-path %s/harness/Cargo.toml --test %s' % (HARNESS_TARGET, VERIF, t)}
     return None
@@ -524,7 +538,10 @@ def main(argv):
         for b in bounded:
             try:
                 w = witness_search(pid, tests=[b['test']])
-                ev['coverage']['bounded_checks'].append({'test': b['test'], 'stands_in_for': b['covers'], 'bound': b['bound'], 'result': 'FAILED' if w else 'passed'})
+                kb = sorted(set(f['id'] for (f, _) in KNOWN_BOUNDED.get(pid, []) if f.get('bounded_test') == b['test']))
+                ev['coverage']['bounded_checks'].append({'test': b['test'], 'stands_in_for': b['covers'], 'bound': b['bound'],
+                                                         'result': 'FAILED' if w else ('passed' + ((' except for the recorded finding(s) ' + ', '.join(kb)) if kb else ''))})
+                ev['coverage']['known_findings_reported'] = ev['coverage'].get('known_findings_reported', []) + ['bounded:%s:%s' % (b['test'], k) for k in kb]
                 if w and witness is None:
                     witness = w
                     witness['bounded_stand_in_for'] = b['covers']
@@ -575,6 +592,12 @@ def main(argv):
         fd = load_findings()
         desc = next((x for x in fd['open'] if x['id'] == f.finding), {})
         print('KNOWN-FINDING: property=%s %s %s -- %s' % (pid, f.finding, f.oblig, desc.get('what', '')))
+    seen_b = set()
+    for (f, line) in KNOWN_BOUNDED.get(pid, []):
+        if f['id'] in seen_b:
+            continue
+        seen_b.add(f['id'])
+        print('KNOWN-FINDING: property=%s %s bounded:%s -- %s' % (pid, f['id'], f.get('bounded_test'), f.get('what', '')))
     if witness and witness.get('bounded_stand_in_for') and not viol and not undecided:
         path = write_replay(pid, a.tier, [], unit_runs, witness)
         json.dump(ev, open(os.path.join(VERIF, 'evidence', pid + '.json'), 'w'), indent=1)
